@@ -163,6 +163,9 @@ def main(argv=None):
                 res['wall'] = d.get('wall')
                 results.append(res)
 
+    if os.environ.get('VERIF_VERBOSE'):
+        for r in sorted(results, key=lambda r: -(r.get('wall') or 0))[:12]:
+            print(f"  unit {r['unit']}: {r.get('wall'):.1f}s evals={r.get('evaluations')}", file=sys.stderr)
     # ---- aggregate
     evaluations = 0
     nontrivial = set()
